@@ -200,6 +200,10 @@ yield1:
 	if (UNLIKELY(!nrd && off < bno && ctx->cur_lno <= ctx->tot_lno)) {
 		/* last line then, unyielded :| */
 		set_loff(ctx, ctx->tot_lno, bno - ctx->buf);
+		if (LIKELY((size_t)(bno - ctx->buf) < MAP_LEN)) {
+			/* what's behind it is left from an earlier window */
+			*bno = '\0';
+		}
 		off = bno;
 		/* count it as line and check if we need more */
 		if (++ctx->tot_lno >= MAX_NLINES) {
